@@ -1,5 +1,6 @@
 import Rare.Base.Proto
-import Rare.Model.C14
+import Rare.Model.C14Format
+import Rare.Drv.Expr
 /-!
 Line protocol of property C14 (see `harness/corr/c14.go` for the Go side).
 
@@ -9,7 +10,7 @@ Line protocol of property C14 (see `harness/corr/c14.go` for the Go side).
 that the palette indices of the log scalers can be compared exactly.  `math.Pow` (heatmap legend of a
 log scale) is not ported: both sides replace that one line by `~`.
 
-Ops: `scale`, `barw`, `stack`, `cell`, `strlen`, `hdr`, `tablew`, `render histo|histo2|bars|table|heat|spark|reduce`.
+Ops: `scale`, `barw`, `stack`, `cell`, `strlen`, `fmtseq`, `hdr`, `tablew`, `render histo|histo2|bars|table|heat|spark|reduce`.
 -/
 namespace Rare.Drv.C14
 open Rare Rare.C14 Rare.C20 Rare.Proto
@@ -67,7 +68,39 @@ def bit (s : String) : Option Bool := if s = "1" then some true else if s = "0" 
 def scaler? (s : String) : Option Scaler :=
   if s = "linear" then some .linear else if s = "log2" then some .log2 else if s = "log10" then some .log10 else none
 
-def fmt? (s : String) : Option Fmt := if s = "raw" then some .raw else if s = "hi" then some .hi else none
+/-- the formatter field: `raw`, `hi` or `x<hex of the --format expression>` -/
+inductive FmtArg where
+  | ok (f : Fmt)
+  | unmodelled (name : String)
+  | compileError
+  | bad
+
+def fmtArg (s : String) : FmtArg :=
+  if s = "raw" then .ok .raw else if s = "hi" then .ok .hi
+  else if s.startsWith "x" then
+    match Hex.dec (s.drop 1).toString with
+    | some b =>
+      match Rare.Drv.Expr.decodeTemplate b with
+      | some tc =>
+        match Fmt.ofExpression Rare.Drv.Expr.registry tc with
+        | .error m => if m.startsWith "unmodelled:" then .unmodelled (m.drop 11).toString else .compileError
+        | .ok (f, errs) =>
+          match Rare.Drv.Expr.unmodelledTag errs with
+          | some n => .unmodelled n
+          | none => if errs.isEmpty then .ok f else .compileError
+      | none => .bad
+    | none => .bad
+  else .bad
+
+/-- run `k` with the parsed formatter, or give the answer that stands for the whole case -/
+def withFmt (s : String) (k : Fmt → String) : String :=
+  match fmtArg s with
+  | .ok f => k f
+  | .unmodelled n => "unmodelled " ++ n
+  | .compileError => "compile-error"
+  | .bad => "bad-args"
+
+def fmt? (s : String) : Option String := some s
 
 def ints? (s : String) (sep : String) : Option (List Int) :=
   if s = "." then some [] else (s.splitOn sep).mapM String.toInt?
@@ -76,7 +109,15 @@ def ints? (s : String) (sep : String) : Option (List Int) :=
 def phases? (s : String) : Option (List (List (List Int))) :=
   (s.splitOn "|").mapM fun ph => if ph = "." then some [] else (ph.splitOn ",").mapM fun sm => ints? sm ":"
 
-def okLines (vt : VirtualTerm) : String := "ok " ++ hexList vt.lines
+def hasInfix (needle : Bytes) : Bytes → Bool
+  | [] => needle.isEmpty
+  | b :: rest => (needle.isPrefixOf (b :: rest)) || hasInfix needle rest
+
+/-- the answer for a list of lines; a formatter whose model predicts a Go panic leaves its mark -/
+def linesAnswer (lines : List Bytes) : String :=
+  if lines.any (hasInfix fmtPanicMark) then "panic" else "ok " ++ hexList lines
+
+def okLines (vt : VirtualTerm) : String := linesAnswer vt.lines
 
 def answer (r : Res String) : String :=
   match r with
@@ -113,7 +154,7 @@ def renderHisto (env : Env) (sc : Scaler) (fm : Fmt) (bar pct : Bool) (maxLines 
     let h2 ← Histo.new n true true .linear .hi
     let items ← topItems cells n
     let (_, vt2) ← h2.writeOutput A env VirtualTerm.new items cells.sum atLeast
-    pure ("ok " ++ hexList (vt.lines ++ [ascii "~~"] ++ vt2.lines))
+    pure (linesAnswer (vt.lines ++ [ascii "~~"] ++ vt2.lines))
   else pure (okLines vt)
 
 def renderBars (env : Env) (sc : Scaler) (fm : Fmt) (stacked : Bool) (barSize : Int) (keys subs : List Bytes)
@@ -137,7 +178,8 @@ def sampleTable (c : Cells) (ph : List (List Int)) : Cells :=
 
 def renderTable (env : Env) (fm : Fmt) (rowTot colTot : Bool) (nrows ncols : Int) (rkeys ckeys : List Bytes)
     (phases : List (List (List Int))) : Res String := do
-  let d ← DataTable.new ncols nrows rowTot colTot fm
+  let d ← DataTable.new ncols nrows rowTot colTot
+  let d := d.setFormatter fm
   let (_, _, vt) ← phases.foldlM (fun (st : Cells × DataTable × VirtualTerm) ph => do
     let cells := sampleTable st.1 ph
     let (d, vt) ← st.2.1.writeTable env st.2.2 rkeys ckeys cells
@@ -158,7 +200,7 @@ def renderHeat (env : Env) (sc : Scaler) (fm : Fmt) (nrows ncols : Int) (fix fmi
     pure (cells, h, vt)) (([] : Cells), h, vt)
   -- the legend of a log scale goes through math.Pow: not compared
   let lines := if sc != .linear then (match vt.lines with | [] => [] | _ :: r => ascii "~" :: r) else vt.lines
-  pure ("ok " ++ hexList lines)
+  pure (linesAnswer lines)
 
 def renderSpark (env : Env) (sc : Scaler) (fm : Fmt) (nrows ncols : Int) (trunc : Bool) (rkeys ckeys : List Bytes)
     (phases : List (List (List Int))) : Res String := do
@@ -271,6 +313,13 @@ def handle : List String → String
         let s ← sparkWrite A env x
         pure ("ok " ++ Hex.enc h ++ " " ++ Hex.enc s))
     | _, _, _, _, _, _ => "bad-args"
+  | ["fmtseq", fm, triples] =>
+    withFmt fm fun f =>
+      match (triples.splitOn ",").mapM (fun t => ints? t ":") with
+      | some ts => linesAnswer (ts.map fun t => match t with
+          | [v, mn, mx] => f.apply v mn mx
+          | _ => [])
+      | none => "bad-args"
   | ["strlen", col, s] =>
     match bit col, Hex.dec s with
     | some c, some b => s!"ok {strLen { color := c, unicode := true } b}"
@@ -296,12 +345,12 @@ def handle : List String → String
   | ["render", "histo", col, uni, sc, fm, bar, pct, maxLines, keys, ph] =>
     match bit col, bit uni, scaler? sc, fmt? fm, bit bar, bit pct, maxLines.toInt?, decHexList keys, phases? ph with
     | some c, some u, some k, some f, some b, some p, some ml, some ks, some phs =>
-      answer (renderHisto { color := c, unicode := u } k f b p ml 0 false ks phs)
+      withFmt f fun f => answer (renderHisto { color := c, unicode := u } k f b p ml 0 false ks phs)
     | _, _, _, _, _, _, _, _, _ => "bad-args"
   | ["render", "histo2", col, uni, sc, fm, bar, pct, maxLines, atLeast, all, keys, ph] =>
     match bit col, bit uni, scaler? sc, fmt? fm, bit bar, bit pct, maxLines.toInt?, atLeast.toInt?, bit all, decHexList keys, phases? ph with
     | some c, some u, some k, some f, some b, some p, some ml, some al, some all, some ks, some phs =>
-      answer (renderHisto { color := c, unicode := u } k f b p ml al all ks phs)
+      withFmt f fun f => answer (renderHisto { color := c, unicode := u } k f b p ml al all ks phs)
     | _, _, _, _, _, _, _, _, _, _, _ => "bad-args"
   | ["render", "reduce", col, nrows, ncols, gnames, gexprs, dnames, dexprs, pool, ph] =>
     match bit col, nrows.toInt?, ncols.toInt?, decHexList gnames, decHexList gexprs, decHexList dnames, decHexList dexprs,
@@ -312,23 +361,23 @@ def handle : List String → String
   | ["render", "bars", col, uni, sc, fm, stacked, barSize, keys, subs, ph] =>
     match bit col, bit uni, scaler? sc, fmt? fm, bit stacked, barSize.toInt?, decHexList keys, decHexList subs, phases? ph with
     | some c, some u, some k, some f, some st, some bs, some ks, some ss, some phs =>
-      answer (renderBars { color := c, unicode := u } k f st bs ks ss phs)
+      withFmt f fun f => answer (renderBars { color := c, unicode := u } k f st bs ks ss phs)
     | _, _, _, _, _, _, _, _, _ => "bad-args"
   | ["render", "table", col, fm, rt, ct, nrows, ncols, rkeys, ckeys, ph] =>
     match bit col, fmt? fm, bit rt, bit ct, nrows.toInt?, ncols.toInt?, decHexList rkeys, decHexList ckeys, phases? ph with
     | some c, some f, some rt, some ct, some nr, some nc, some rk, some ck, some phs =>
-      answer (renderTable { color := c, unicode := true } f rt ct nr nc rk ck phs)
+      withFmt f fun f => answer (renderTable { color := c, unicode := true } f rt ct nr nc rk ck phs)
     | _, _, _, _, _, _, _, _, _ => "bad-args"
   | ["render", "heat", col, uni, sc, fm, nrows, ncols, fix, fmin, fmax, rkeys, ckeys, ph] =>
     match bit col, bit uni, scaler? sc, fmt? fm, nrows.toInt?, ncols.toInt?, fix.toInt?, fmin.toInt?, fmax.toInt?,
         decHexList rkeys, decHexList ckeys, phases? ph with
     | some c, some u, some k, some f, some nr, some nc, some fx, some mn, some mx, some rk, some ck, some phs =>
-      answer (renderHeat { color := c, unicode := u } k f nr nc fx mn mx rk ck phs)
+      withFmt f fun f => answer (renderHeat { color := c, unicode := u } k f nr nc fx mn mx rk ck phs)
     | _, _, _, _, _, _, _, _, _, _, _, _ => "bad-args"
   | ["render", "spark", col, uni, sc, fm, nrows, ncols, trunc, rkeys, ckeys, ph] =>
     match bit col, bit uni, scaler? sc, fmt? fm, nrows.toInt?, ncols.toInt?, bit trunc, decHexList rkeys, decHexList ckeys, phases? ph with
     | some c, some u, some k, some f, some nr, some nc, some tr, some rk, some ck, some phs =>
-      answer (renderSpark { color := c, unicode := u } k f nr nc tr rk ck phs)
+      withFmt f fun f => answer (renderSpark { color := c, unicode := u } k f nr nc tr rk ck phs)
     | _, _, _, _, _, _, _, _, _, _ => "bad-args"
   | _ => "bad-op"
 
